@@ -26,6 +26,7 @@ import (
 	"runtime"
 	"strconv"
 	"strings"
+	"syscall"
 	"time"
 
 	"github.com/google/mtail/internal/metrics"
@@ -63,6 +64,8 @@ type Case struct {
 	Kind     string    `json:"kind"`
 	Procs    int       `json:"gomaxprocs"`
 	Progs    [][]Rule  `json:"progs"`
+	Tails    []int     `json:"tails"` // per program, how its text ends: 0 plainly, 1 trailing top-level stop, 2 "} else { stop }" on the line pattern, 3 a final statement that always raises a runtime error
+	Sock     bool      `json:"sock,omitempty"` // the log glob also matches a unix socket file sorting before the logs
 	Files    []File    `json:"files"`
 	Glob     bool      `json:"glob"` // one glob pattern instead of one pattern per file
 	Returned bool      `json:"returned"`
@@ -72,7 +75,12 @@ type Case struct {
 
 var tags = []string{"a", "b", "c"}
 
-func source(rules []Rule) string {
+// source renders a program.  The tail shapes 1-3 have no effect on any metric:
+// they make the program's FINAL instruction one that ends the line's processing
+// (stop, or a runtime error), reached by every line (1, 3) or by every
+// non-matching line (2) - per-line VM state that survives into the next line
+// shows as a line missing from the per-line log.
+func source(rules []Rule, tail int) string {
 	var b strings.Builder
 	b.WriteString("counter seq by f, k\n")
 	decl := []string{"counter hits\n", "counter sum\n", "gauge last\n"}
@@ -95,7 +103,16 @@ func source(rules []Rule) string {
 		}
 		fmt.Fprintf(&b, "  $tag == \"%s\" {\n    %s\n  }\n", tags[r.Tag], act)
 	}
-	b.WriteString("}\n")
+	switch tail {
+	case 1:
+		b.WriteString("}\nstop\n")
+	case 2:
+		b.WriteString("} else {\n  stop\n}\n")
+	case 3:
+		b.WriteString("}\nstrptime(\"not a time\", \"2006-01-02T15:04:05\")\n")
+	default:
+		b.WriteString("}\n")
+	}
 	return b.String()
 }
 
@@ -120,8 +137,11 @@ func execute(root string, serial int, c *Case) {
 	must(os.MkdirAll(progDir, 0o755))
 	must(os.MkdirAll(logDir, 0o755))
 	defer os.RemoveAll(dir)
+	for len(c.Tails) < len(c.Progs) {
+		c.Tails = append(c.Tails, 0)
+	}
 	for i, rules := range c.Progs {
-		must(os.WriteFile(filepath.Join(progDir, fmt.Sprintf("p%d.mtail", i)), []byte(source(rules)), 0o644))
+		must(os.WriteFile(filepath.Join(progDir, fmt.Sprintf("p%d.mtail", i)), []byte(source(rules, c.Tails[i])), 0o644))
 	}
 	var pats []string
 	for i, f := range c.Files {
@@ -131,6 +151,11 @@ func execute(root string, serial int, c *Case) {
 	}
 	if c.Glob {
 		pats = []string{filepath.Join(logDir, "*.log")}
+		if c.Sock {
+			// an entry the glob matches but no stream can be started on,
+			// sorting before f0.log: it must not cost the files their lines
+			must(syscall.Mknod(filepath.Join(logDir, "a0.log"), syscall.S_IFSOCK|0o644, 0))
+		}
 	}
 	prev := runtime.GOMAXPROCS(c.Procs)
 	defer runtime.GOMAXPROCS(prev)
@@ -346,7 +371,13 @@ func genCase(rng *vlib.Rand, big bool) *Case {
 			rs = append(rs, Rule{Tag: rng.Intn(3), Act: rng.Intn(3)})
 		}
 		c.Progs = append(c.Progs, rs)
+		t := 0
+		if rng.Chance(55) {
+			t = 1 + rng.Intn(3)
+		}
+		c.Tails = append(c.Tails, t)
 	}
+	c.Sock = c.Glob && rng.Chance(35)
 	nf := 1 + rng.Intn(3)
 	for i := 0; i < nf; i++ {
 		var f File
@@ -428,6 +459,12 @@ func main() {
 		id := out.NextID()
 		out.Add(coqCase(id, c), c, nonempty >= 2 && lines >= 4)
 		out.Count(fmt.Sprintf("procs%d/progs%d/files%d", c.Procs, len(c.Progs), len(c.Files)))
+		for _, t := range c.Tails {
+			out.Count(fmt.Sprintf("program-tail-%d", t))
+		}
+		if c.Sock {
+			out.Count("glob-also-matches-a-socket")
+		}
 		if i >= n {
 			out.Count("large-files")
 		}
@@ -444,5 +481,5 @@ func main() {
 		}
 	}
 	out.Extra["runs_that_did_not_return"] = hung
-	out.Flush("1-3 generated programs (1-4 rules '$tag == t { hits++ | sum += v | last = v }' plus a per-line log) x 1-3 generated files (0-24 lines, a few with 150-400; junk and empty lines, empty files, unterminated last line), through mtail.New(OneShot)+Run with a 15 s deadline under GOMAXPROCS 1/2/16; goroutine scheduling is whatever the Go runtime does (sampled); a case is non-trivial when at least two files are non-empty and there are >= 4 lines", false)
+	out.Flush("1-3 generated programs (1-4 rules '$tag == t { hits++ | sum += v | last = v }' plus a per-line log; ending plainly, in a trailing top-level stop, in '} else { stop }' or in a statement that always raises a runtime error) x 1-3 generated files (0-24 lines, a few with 150-400; junk and empty lines, empty files, unterminated last line; in a third of the glob cases the glob also matches a unix socket file sorting first), through mtail.New(OneShot)+Run with a 15 s deadline under GOMAXPROCS 1/2/16; goroutine scheduling is whatever the Go runtime does (sampled); a case is non-trivial when at least two files are non-empty and there are >= 4 lines", false)
 }
